@@ -483,7 +483,12 @@ def main():
                 v2 = prove_eq(ck, e.pc, ret.v, want_v)
                 st = v1[0] if v1[0] != 'proved' else v2[0]
                 if st != 'proved':
-                    return (st, 'iteration %d (skip=%s): accumulator is not 2*acc + comb digits*G + naf digit*P' % (i0, skip0))
+                    wit = None
+                    mdl = v1[1] if v1[0] == 'cex' else v2[1]
+                    if mdl is not None:
+                        dv = mdl.eval(d, model_completion=True).as_signed_long()
+                        wit = dict(i0=i0, skip0=skip0, g=model_bytes(mdl, g), d=dv)
+                    return (st, 'iteration %d (skip=%s): accumulator is not 2*acc + comb digits*G + naf digit*P' % (i0, skip0), wit)
                 if not final and i2 != i0 - 1:
                     return ('cex', 'loop index moves from %d to %s' % (i0, i2))
                 if not final and skip0 and not isinstance(skip2, bool):
@@ -498,7 +503,7 @@ def main():
     ck.absorb(eng)
     cexs = [b for b in step_bad if b[2][0] == 'cex']
     if cexs:
-        add('ScalarMixedMult:step', '%s (%d failing (position, path) cases)' % (cexs[0][2][1], len(cexs)), ('mixed',))
+        add('ScalarMixedMult:step', '%s (%d failing (position, path) cases)' % (cexs[0][2][1], len(cexs)), ('mixed', [b[2][2] for b in cexs if len(b[2]) > 2 and b[2][2]]))
     elif step_bad:
         unknown.append('mixed step: ' + step_bad[0][2][1])
 
@@ -532,7 +537,33 @@ def main():
     def enc(pt):
         return [0] if pt is None else [4] + list(pt[0].to_bytes(32, 'big')) + list(pt[1].to_bytes(32, 'big'))
     Pp = ref.mul(rng.randrange(1, N))
+    # a failing loop step is a counterexample over the loop state (position, skip flag, accumulator, digit, base scalar);
+    # build a whole (g, s) pair whose run reaches that state: with the skip flag still set nothing may have been added
+    # before, so the comb columns above the position are cleared in g and s has its only recoding digit at the position;
+    # otherwise the history is arbitrary and s gets the digit at the position below a random high part
+    forced = {}
+    for k_, fl in fails.items():
+        for desc, wit in fl:
+            if wit and wit[0] == 'mixed':
+                for w in wit[1][:24]:
+                    gv = int.from_bytes(bytes(w['g']), 'big')
+                    i0, dv = w['i0'], w['d']
+                    if w['skip0']:
+                        for pos in range(4, 256):
+                            if (pos - 4) % 14 > i0:
+                                gv &= ~(1 << pos)
+                        sv = (abs(dv) << i0)
+                    else:
+                        sv = (dv << i0) + ((rng.getrandbits(max(1, 250 - i0 - 9)) | 1) << (i0 + 9)) if i0 + 9 < 250 else (abs(dv) << i0)
+                    if 0 <= sv < 2 ** 256:
+                        forced[(gv, sv)] = 1
+                    for dd in (1, 3, 15):      # the same position with other digits and a dense base scalar
+                        if (dd << i0) < 2 ** 256 and len(forced) < 60:
+                            forced[(w and int.from_bytes(bytes(w['g']), 'big'), dd << i0)] = 1
     rows = []
+    for kv, sv in list(forced)[:60]:
+        rows.append('{%s, %s, %s, %s, %s},' % (go_bytes(list(kv.to_bytes(32, 'big'))), go_bytes(list(sv.to_bytes(32, 'big'))), go_bytes(enc(ref.mul(kv % N))),
+                                              go_bytes(enc(ref.mul(kv % N, Pp))), go_bytes(enc(ref.add(ref.mul(kv % N), ref.mul(sv % N, Pp))))))
     for kv in ks:
         sv = rng.getrandbits(256) if kv not in (0, 1) else kv
         rows.append('{%s, %s, %s, %s, %s},' % (go_bytes(list(kv.to_bytes(32, 'big'))), go_bytes(list(sv.to_bytes(32, 'big'))), go_bytes(enc(ref.mul(kv % N))),
